@@ -95,17 +95,47 @@ def check_projections(ctx):
     from .pattern import find
     from .c15 import _inline
     # the label array that is indexed by argmax and the loop that builds the columns use the same arm sequence
-    stk, sb = find("np.array([self.arm_to_model[_A_].predict(_EC_) for _A_ in _ARMS_]).T", fv.node)
-    sel, lb = find("_ARMS_[np.argmax(_EM_, axis=1)]", fv.node, {"_ARMS_": sb["_ARMS_"]} if sb else None)
+    def arms_seq(e, depth=0):
+        """is e the bandit's current arm list, or an order-preserving copy / array of it made in this call?"""
+        if depth > 6:
+            return False
+        if isinstance(e, ast.Attribute):
+            return ast.unparse(e) == "self.arms"
+        if isinstance(e, ast.Name):
+            defs = [n.value for n in ast.walk(fv.node) if isinstance(n, ast.Assign) and len(n.targets) == 1
+                    and isinstance(n.targets[0], ast.Name) and n.targets[0].id == e.id]
+            # a chain like `arms = deepcopy(self.arms); arms = np.array(arms)`: every definition must qualify
+            return bool(defs) and all(arms_seq(d, depth + 1) if not (
+                isinstance(d, ast.Call) and any(isinstance(x, ast.Name) and x.id == e.id for x in ast.walk(d)))
+                else _wrapper_of(d, e.id) for d in defs)
+        if isinstance(e, ast.Call):
+            f = ast.unparse(e.func)
+            if f in ("deepcopy", "copy.deepcopy", "copy.copy", "np.array", "np.asarray", "list", "tuple") and \
+                    len(e.args) >= 1:
+                return arms_seq(e.args[0], depth + 1)
+            if isinstance(e.func, ast.Attribute) and e.func.attr == "copy" and not e.args:
+                return arms_seq(e.func.value, depth + 1)
+        return False
+
+    def _wrapper_of(d, name):
+        # `name = np.array(name)`: an order-preserving conversion of the previous value of the same name
+        return isinstance(d, ast.Call) and ast.unparse(d.func) in ("np.array", "np.asarray", "list", "tuple",
+                                                                    "deepcopy") and len(d.args) >= 1 and \
+            isinstance(d.args[0], ast.Name) and d.args[0].id == name
+    stk, sb = find("np.array([self.arm_to_model[_A_].predict(_EC_) for _A_ in _ECOLS_]).T", fv.node)
+    sel, lb = find("_ELAB_[np.argmax(_EM_, axis=1)]", fv.node)
     ok = stk is not None and sel is not None
+    detail = "column-building comprehension or argmax label lookup not found"
     if ok:
-        arr = ast.unparse(_inline(fv.node, ast.Name(id=sb["_ARMS_"], ctx=ast.Load()), stop=()))
-        defs = [ast.unparse(n.value) for n in ast.walk(fv.node) if isinstance(n, ast.Assign)
-                and ast.unparse(n.targets[0]) == sb["_ARMS_"]]
-        ok = defs in (["deepcopy(self.arms)", "np.array(%s)" % sb["_ARMS_"]], ["np.array(self.arms)"],
-                      ["np.array(deepcopy(self.arms))"], ["np.asarray(self.arms)"])
+        cols = ast.parse(sb["_ECOLS_"], mode="eval").body
+        labs = ast.parse(lb["_ELAB_"], mode="eval").body
+        ok = arms_seq(cols) and arms_seq(labs)
+        detail = "columns are built over `%s`, the argmax column is translated through `%s`: %s" % (
+            sb["_ECOLS_"], lb["_ELAB_"], "both are the current arm list" if ok else
+            "they are not both (copies of) the current self.arms made in this call, so the label of the best column "
+            "can be another arm's")
     ctx.check(ok, "R9.2", "_Linear: expectation columns follow the arm list order used for both projections", fv.node,
-              fv, construct="def _Linear._vectorized_predict_context (column order)")
+              fv, detail, construct="def _Linear._vectorized_predict_context (column order)")
     # the flag is not read before the seeds are drawn
     pp = prog.method("BaseMAB", "_parallel_predict")
     seeds_line = None
